@@ -237,3 +237,43 @@ func subsetOf(universe []string, bits uint64) []string {
 	}
 	return out
 }
+
+// Byte strings in replay files: JSON strings must be valid UTF-8, so every byte b is written as the rune U+00bb
+// (Latin-1 mapping) and read back the same way; printable ASCII stays readable.
+func lat1enc(s string) string {
+	r := make([]rune, len(s))
+	for i := 0; i < len(s); i++ {
+		r[i] = rune(s[i])
+	}
+	return string(r)
+}
+
+func lat1dec(s string) string {
+	b := make([]byte, 0, len(s))
+	for _, r := range s {
+		b = append(b, byte(r))
+	}
+	return string(b)
+}
+
+func lat1encAll(ws []string) []string {
+	if ws == nil {
+		return nil
+	}
+	out := make([]string, len(ws))
+	for i, w := range ws {
+		out[i] = lat1enc(w)
+	}
+	return out
+}
+
+func lat1decAll(ws []string) []string {
+	if ws == nil {
+		return nil
+	}
+	out := make([]string, len(ws))
+	for i, w := range ws {
+		out[i] = lat1dec(w)
+	}
+	return out
+}
